@@ -35,4 +35,11 @@ def lfRaise (c : Ctl) : Bool := !c.head.isRaise || !c.afterSwap
 
 theorem lfRaise_all : reach.all lfRaise = true := by decide +kernel
 
+
+/-- a call's stack empties only when its last frame is exhausted -/
+def lfNonEmpty (b : Bool) (c : Ctl) : Bool :=
+  !(nextCtl P c b).stack.isEmpty || c.head.isFinish || c.stack.isEmpty
+
+theorem lfNonEmpty_all (b : Bool) : reach.all (lfNonEmpty b) = true := by cases b <;> decide +kernel
+
 end Ro.Kernel
